@@ -6,6 +6,7 @@ import TsVerif.C17.MergeMulti
 import TsVerif.C17.Intersect
 import TsVerif.C17.Locals
 import TsVerif.C17.Full
+import TsVerif.C17.StackSpec
 /-!
 Driver for C17.  Reads the case stream written by `harness/src/bin/c17` and prints one line per case:
 
@@ -267,7 +268,7 @@ def runFMerge (s : St) (root : Nat) (top : List Nat) : String :=
   let wf := judgeEvents n s.evs
   let ninj := (cx.defs.map fun d => (d.caps.filter fun c => match c.kind with | .inj _ => true | _ => false).length).sum
   let nloc := (cx.defs.map fun d => (d.caps.filter fun c => match c.kind with | .ref _ _ => true | .defn _ _ _ => true | _ => false).length).sum
-  s!"{s.id} kind=F corr={corr} defsin={if Full.defsIn n cx then 1 else 0} refsup={if Full.refsUp cx then 1 else 0} fin={if fin then 1 else 0} wf={if wf then "ok" else "FAIL"} nlayers={cx.defs.length} ninj={ninj} nloc={nloc} depth={maxDepth s.evs} err={s.err}"
+  s!"{s.id} kind=F corr={corr} defsin={if Full.defsIn n cx then 1 else 0} refsup={if Full.refsUp cx then 1 else 0} fin={if fin then 1 else 0} wf={if wf then "ok" else "FAIL"} stack={judgeStacks cx.defs s.evs} nlayers={cx.defs.length} ninj={ninj} nloc={nloc} depth={maxDepth s.evs} err={s.err}"
 
 /-- `run mmerge`: the multi-layer merge model against the real event stream. -/
 def runMMerge (s : St) : String :=
